@@ -25,6 +25,13 @@ TRUSTED_BASE += [
     'fails the first 0..11 attempts of each message (error or panic) and by forwarder.Publisher -> GoChannel -> Forwarder -> GoChannel(BlockPublishUntilSubscriberAck) -> a subscriber that nacks the first 0..3 copies',
     'in the redelivery scenarios the handler invocation is not observable (inserted), and for the Forwarder the settlement of the consumed copy inside the destination call is not sampled (the copy is internal to GoChannel)',
 ]
+TRUSTED_BASE += [
+    'round "proofs 2": the composed system Relay/Consumer.v (GoChannel Layer A + the relay as consumer, one handle per received copy deciding LAck/LNack) is a model-level composition: '
+    'its parts are tied separately (Layer A by the GoChannel schedule replays of C04/C05, the relay per delivery and per redelivery history by this check); relay_consumer is now an invariant, not a hypothesis; '
+    'the Layer B glue (permutation between LSpawn labels and Layer B Senders) is a hypothesis as in GoChannel/ReplayCompose.v',
+    'C17_*_json theorems: encoding/json on the envelope is the Gallina model coq/Value/Json.v proved in C16 (tied to the real library by the C16 check); left assumed: framing_ok (the scanner splits the objects the encoder wrote '
+    'into their members) and that the interning table str_of/id_of is a bijection between string ids and byte strings with "" = 0',
+]
 ASSUMPTIONS = [
     'per-message independence of handleMessage instances is structural (C02); the harness runs 1..8 messages in flight through each component, all of them inside the destination Publish call at the same time, and compares every per-message trace',
     'Requeuer counter at MaxInt64 wraps to MinInt64 (modelled as coded; theorem C17_requeuer_counter_at_maxint_refuted); a message with a nil Metadata map is never requeued (Metadata.Set panics, the Router Nacks; theorem C17_requeuer_nil_metadata_refuted); both are accepted by the acceptor as coded and reported in the design notes, not as violations',
